@@ -95,6 +95,27 @@ func reencodings(rng *rand.Rand, orig []byte) []mutant {
 		copy(b[i:], []byte(`"MEMO":`))
 		add("key-case", b)
 	}
+	// decoder type errors: Go's JSON decoder reports the error and still fills every other field, so a
+	// duplicate key of the wrong type, or a wrong type in place of a zero value, leaves the signed content intact
+	addRaw := func(label string, b []byte) {
+		t := &action.SignedTx{}
+		_ = json.Unmarshal(b, t) // error expected
+		if bytes.Equal(t.RawBytes(), base.RawBytes()) && sigSetEqualLoose(t, base) {
+			out = append(out, mutant{Bytes: b, Label: kind + "/replay:" + label})
+		}
+	}
+	if i := bytes.LastIndexByte(orig, '}'); i > 0 {
+		b := append([]byte{}, orig[:i]...)
+		b = append(b, []byte(`,"memo":5}`)...)
+		b = append(b, orig[i+1:]...)
+		addRaw("type-error-duplicate-key", b)
+	}
+	if i := bytes.Index(orig, []byte(`"memo":""`)); i >= 0 {
+		b := append([]byte{}, orig[:i]...)
+		b = append(b, []byte(`"memo":5`)...)
+		b = append(b, orig[i+len(`"memo":""`):]...)
+		addRaw("type-error-zero-value", b)
+	}
 	// OLVM: the envelope's Signer is unused; the inner payload may be re-encoded as long as the fields agree
 	if base.Type == action.OLVM {
 		var inner map[string]json.RawMessage
@@ -126,11 +147,27 @@ func sigSetEqualLoose(a, b *action.SignedTx) bool {
 	return true
 }
 
+// contentKey identifies the signed content of a transaction whatever its encoding (lenient decoding: a
+// decoder type error still fills the other fields).
+func contentKey(b []byte) string {
+	t := &action.SignedTx{}
+	_ = json.Unmarshal(b, t)
+	if len(t.Signatures) == 0 {
+		return ""
+	}
+	k := string(t.RawBytes())
+	for _, sg := range t.Signatures {
+		k += "|" + string(sg.Signed)
+	}
+	return k
+}
+
 type c05Oracle struct {
-	shadow *core.Replica
-	resubs int
-	blocks int
-	okOrig int
+	executed map[string]bool // signed content of every transaction delivered in an honest block so far
+	shadow   *core.Replica
+	resubs   int
+	blocks   int
+	okOrig   int
 }
 
 func (o *c05Oracle) Inputs() int { return o.resubs }
@@ -157,6 +194,9 @@ func (o *c05Oracle) AfterStep(e *core.Engine, idx int, st *core.Step, stepErr er
 			if i < len(st.Labels) {
 				label = st.Labels[i]
 			}
+			if k := contentKey(c.Tx); k == "" || !o.executed[k] {
+				continue // not a resubmission in this history (e.g. the minimiser removed the original's block)
+			}
 			if c.Code == 0 {
 				return []core.Violation{{Property: "C05", Oracle: "resubmission-rejected-by-checktx", Sig: "replay-admitted:" + label,
 					Msg: fmt.Sprintf("CheckTx admitted (code 0) a resubmission (%s) of a transaction that was already executed in a block; at height %d; tx=%s", label, c.AtHeight, clipS(string(c.Tx), 300))}}
@@ -176,12 +216,28 @@ func (o *c05Oracle) AfterStep(e *core.Engine, idx int, st *core.Step, stepErr er
 	cb := e.C.Blocks[h-1]
 	if st.Note != "replays" {
 		o.shadow.RawBlock(cb, *ra.Begin, ra.TxBytes)
-		for _, r := range ra.Txs {
+		for i, r := range ra.Txs {
 			if r.Code == 0 {
 				o.okOrig++
 			}
+			if k := contentKey(ra.TxBytes[i]); k != "" {
+				o.executed[k] = true
+			}
 		}
 		return nil
+	}
+	for _, tb := range ra.TxBytes {
+		if k := contentKey(tb); k == "" || !o.executed[k] {
+			// the block holds a transaction that was not executed before in this history (the minimiser
+			// removed the original's block): it is an ordinary block, the twin follows it
+			o.shadow.RawBlock(cb, *ra.Begin, ra.TxBytes)
+			for i := range ra.Txs {
+				if k := contentKey(ra.TxBytes[i]); k != "" {
+					o.executed[k] = true
+				}
+			}
+			return nil
+		}
 	}
 	o.blocks++
 	o.resubs += len(ra.Txs)
@@ -203,7 +259,7 @@ func init() {
 	Register(&ClusterProp{
 		Id: "C05",
 		RuleText: "each run: honest blocks (swarm subset of all generators) execute transactions; every 2-4 blocks the replayer picks transactions executed earlier (all kinds, successes and failures, same block age .. whole run) and resubmits them " +
-			"byte-identical and re-encoded with the signed content unchanged (key order, whitespace, trailing space, unknown extra field, shadowed duplicate key, \\u escape, key case, OLVM inner payload key order). Every resubmission goes through CheckTx on a probe node " +
+			"byte-identical and re-encoded with the signed content unchanged (key order, whitespace, trailing space, unknown extra field, shadowed duplicate key, \\u escape, key case, decoder type errors that leave the content intact, OLVM inner payload key order). Every resubmission goes through CheckTx on a probe node " +
 			"and is delivered in a block of resubmissions only (byzantine proposer). Oracles: CheckTx code != 0; the resubmission block's app hash equals that of a twin that received the same BeginBlock and no transactions. " +
 			"Assumes the node's tx index is complete for every applied block. Non-trivial: >=3 resubmissions delivered and >=3 successful originals; distinct = distinct fingerprints; `inputs` = resubmissions delivered.",
 		MakeSetup: func(rng *rand.Rand, tier string, seed uint64) *Setup {
@@ -281,6 +337,6 @@ func init() {
 			}
 			return su
 		},
-		MakeOracle: func(e *core.Engine, tr *core.Trace) Oracle { return &c05Oracle{} },
+		MakeOracle: func(e *core.Engine, tr *core.Trace) Oracle { return &c05Oracle{executed: map[string]bool{}} },
 	})
 }
